@@ -160,7 +160,7 @@ pub fn install_panic_hook() {
             thread: th.name().unwrap_or("?").to_owned(),
         };
         if !QUIET.load(Ordering::Relaxed) {
-            eprintln!("PANIC {rec:?}");
+            eprintln!("PANIC|{}|{}|{}", rec.location, rec.message.replace('\n', " "), rec.thread);
         }
         if let Some(m) = PANICS.get() {
             m.lock().unwrap().entry(th.id()).or_default().push(rec);
